@@ -428,7 +428,12 @@ func Headers(t *rapid.T, o HeaderOpts) (prot, unprot rc.Val) {
 	}
 	if pick("cwt") {
 		claims := rc.Map(rc.E(rc.Int(1), rc.Text("iss")), rc.E(rc.Int(2), rc.Text(rapid.StringMatching(`[a-z]{0,10}`).Draw(t, "sub"))))
-		add(&prot, takenP, lab(15), claims)
+		if rapid.IntRange(0, 3).Draw(t, "cwt-unprotected") == 0 {
+			// (RFC 9597 puts the claims into the protected bucket; the library takes them in either)
+			add(&unprot, takenU, lab(15), claims)
+		} else {
+			add(&prot, takenP, lab(15), claims)
+		}
 	}
 	if pick("x5") {
 		m, tk := bucket("x5")
